@@ -1,10 +1,12 @@
 """C13 - any input type can be rendered in any output format and mode.
 
 E1 over the complete configuration matrix: input type (8) x --format (8 + absent) x mode {full, -e, -d} x
-{--no-color, --color, --html} x {plain, -j} x {documents with differences, identical documents} x document pairs,
+{--no-color, --color, --html, --html --color} x {plain, -j} x {documents with differences, identical documents} x document pairs,
 through in-process graphtage.__main__.main. Oracle: no exception escapes main, nothing that looks like a traceback on
 stderr, exit status in {0, 1} and consistent with "with / without differences".
 """
+import collections
+import fractions
 import json
 import os
 import pickle
@@ -19,7 +21,7 @@ LEVEL = 'model_checking'
 CASE_TIMEOUT = 60
 TYPES = ('json', 'json5', 'yaml', 'csv', 'xml', 'html', 'plist', 'pickle')
 MODES = ([], ['-e'], ['-d'])
-RENDER = (['--no-color'], ['--color'], ['--html'])
+RENDER = (['--no-color'], ['--color'], ['--html'], ['--html', '--color'])
 LAYOUT = ([], ['-j'])
 OPTION_FLAGS = (['-k'], ['--dict-strategy', 'match'], ['-l'], ['-ll'], ['--match-if', 'from == to'], ['--match-unless', 'from == to'],
                 ['--match-if', 'len(from) > 0'], ['--match-unless', 'from.object == 1'])
@@ -29,7 +31,7 @@ ASSUMPTIONS = ['in-process main() on capture streams (C07 leg 4 confirms equival
                'documents are small; the matrix, not the document space, is what is exhaustive here']
 MANIFEST = {
     'technique': 'exhaustive enumeration of the finite configuration matrix on the real command-line entry point',
-    'text': 'All 2592 combinations of input type, output format, output mode, colour/HTML and condensed layout, for '
+    'text': 'All 3456 combinations of input type, output format, output mode, colour/HTML and condensed layout, for '
             'documents with and without differences (quick: 1 document pair per type under the full matrix + 7 branch-targeting pairs under type x format x mode x colour/html; thorough: all 8 pairs under the full matrix), are run through main(); none '
             'may end in an internal error and the exit status must reflect whether the documents differ.',
     'note': 'The matrix is complete; the documents per cell are few.',
@@ -49,6 +51,8 @@ DOCS = [
      {'t': 'line1\nline3\n', 'x': '<a&c>\'q\'', 'u': '\u00e8', 'lst': ['x'], 'lst2': ['y', 'p\nq\n']}),
     ({'i': -1, 'f': 1.5, 'big': 2 ** 40, 'b': False}, {'i': 1, 'f': -2.25, 'big': 2 ** 40 + 1, 'b': True}),
     ({'colour': [1, 2], 'name': 'x', 'same': 'y'}, {'color': [1, 2], 'nome': 'x', 'same': 'y'}),
+    # containers with more than ten members (abbreviating reprs, column layouts and the like have thresholds)
+    (dict({f'k{i:02d}': i for i in range(12)}, gone=1, lst=list(range(12))), dict({f'k{i:02d}': i for i in range(12)}, new=2, lst=list(range(1, 13)))),
 ]
 XMLS = [
     ('<root a="1" b="2"><item id="1">one</item><item id="2">two</item><x/></root>',
@@ -60,6 +64,8 @@ XMLS = [
     ('<r><t>line1\nline2</t><u> padded </u><gone>g1\ng2</gone></r>', '<r><t>line1\nline3\nline4</t><u>padded</u></r>'),
     ('<r a="1" b="2" c="3"/>', '<r a="1" b="3" d="4"/>'),
     ('<r x="&lt;&amp;&quot;">a &amp; b &lt; c</r>', '<r x="&gt;&amp;">a &amp; b &gt; c</r>'),
+    ('<r ' + ' '.join(f'a{i:02d}="{i}"' for i in range(12)) + ' gone="1">' + ''.join(f'<c{i}/>' for i in range(12)) + '</r>',
+     '<r ' + ' '.join(f'a{i:02d}="{i}"' for i in range(12)) + ' new="2">' + ''.join(f'<c{i}/>' for i in range(1, 13)) + '</r>'),
 ]
 CSVS = [
     ('name,qty\napple,1\npear,2\nfig,3\n', 'name,qty\napple,1\nplum,2\n'),
@@ -70,13 +76,20 @@ CSVS = [
     ('"multi\nline",z\n"gone\nrow",w\nlast,row\n', '"multi\nlines",z\nlast,row\n'),
     ('1,2\n3,4\n', '3,4\n1,2\n'),
     ('\n\n', 'a\n'),
+    (','.join(f'h{i}' for i in range(12)) + '\n' + '\n'.join(','.join(str(i * j) for i in range(12)) for j in range(12)) + '\n',
+     ','.join(f'h{i}' for i in range(12)) + '\n' + '\n'.join(','.join(str(i * j) for i in range(12)) for j in range(1, 13)) + '\n'),
 ]
 
 
 PICKLE_DOCS = {
     5: ({'b': b'ab', 't': (1, (2, 3)), 's': {1, 2}, b'id': 7, b'was': 1}, {'b': b'ac', 't': (1, (2, 4)), 's': {2, 3}, b'id': 7, b'now': 2}),
-    6: ([b'x', 'x', bytearray(b'xy'), complex(1, 2)], ['x', b'x', bytearray(b'xz'), complex(1, 3)]),
+    6: ([b'x', 'x', bytearray(b'xy'), complex(1, 2), {'a': 1}, {2, 3}], ['x', b'x', bytearray(b'xz'), complex(1, 3), {1}, {'b': 2}]),
     2: (b'some bytes', b'same bytes'),
+    # instances of dict subclasses with one item (unpickled through item assignment), two items, and a class instance
+    8: ({'prefs': collections.OrderedDict(theme='dark'), 'two': collections.OrderedDict(a=1, b=2), 'dd': collections.defaultdict(int, n=1),
+         'frac': fractions.Fraction(1, 3), 'gone': collections.OrderedDict(x=1)},
+        {'prefs': collections.OrderedDict(theme='light'), 'two': collections.OrderedDict(a=1, c=2), 'dd': collections.defaultdict(int, m=1),
+         'frac': fractions.Fraction(2, 3), 'new': collections.OrderedDict(y=1)}),
 }
 
 
@@ -138,8 +151,9 @@ def configs(tier):
                                 # matching / constraint option flags (they select different edit classes to be rendered)
                                 for flags in OPTION_FLAGS:
                                     for same in (False, True):
-                                        yield {'type': typ, 'format': fmt, 'mode': mode, 'render': rend, 'layout': lay,
-                                               'pair': 7 if flags and flags[0] in ('-k', '--dict-strategy') else 0, 'identical': same, 'flags': flags}
+                                        for pr in ((7, 8) if flags and flags[0] in ('-k', '--dict-strategy') else (0,)):
+                                            yield {'type': typ, 'format': fmt, 'mode': mode, 'render': rend, 'layout': lay,
+                                                   'pair': pr, 'identical': same, 'flags': flags}
                             if which >= nfull and lay != LAYOUT[0]:
                                 continue
                             for same in (False, True):
